@@ -860,6 +860,62 @@ theorem exec_handlers (t : Thread) (b : Block) : ∀ (env : Env) (s : State) (r 
     simp only [exec] at this hb
     exact ⟨this.1.trans hb.1, this.2⟩
 
+/-! ### `Runtime.__init__` sets `_entered = {}` -/
+
+/-- well-formed states: a name that has not been allocated has empty saved stacks -/
+def WF (s : State) : Prop := ∀ r, ¬ Allocated s r → ∀ t, (s.objs r).entered t = []
+
+/-- on a well-formed state a freshly created object has empty saved stacks, as `__init__` makes them -/
+theorem alloc_fresh_entered (s : State) (t : Thread) (hs : Table) (h : WF s) :
+    ((alloc s t hs).1.objs (t, s.next t)).entered = fun _ => [] := by
+  funext t'
+  rw [alloc_entered]
+  exact h (t, s.next t) (by simp [Allocated]) t'
+
+theorem alloc_wf (s : State) (t : Thread) (hs : Table) (h : WF s) : WF (alloc s t hs).1 := by
+  intro r hr t'
+  rw [alloc_entered]
+  exact h r (fun ha => hr (alloc_allocated s t hs r ha)) t'
+
+theorem current_wf (s : State) (t : Thread) (h : WF s) : WF (current s t).1 := by
+  unfold current; split
+  · exact h
+  · exact alloc_wf s t s.defaults h
+
+/-- well-formedness is preserved by every step that enters only existing objects (a program can
+    only hold references to objects that were created) -/
+theorem step_wf (s : State) (t : Thread) (o : Op) (h : WF s) (hen : ∀ r, o = .enter r → Allocated s r) :
+    WF (step s t o).1 := by
+  cases o with
+  | current => exact current_wf s t h
+  | new hs => exact alloc_wf s t _ h
+  | derive r hs => exact alloc_wf s t _ h
+  | handleCur hs => exact alloc_wf _ t _ (current_wf s t h)
+  | registerDefault ty hh => exact h
+  | run ty => exact current_wf s t h
+  | inherit p =>
+    simp only [step]; split
+    · exact h
+    · exact alloc_wf s t s.defaults h
+  | enter r =>
+    intro r' hr' t'
+    have hne : r' ≠ r := fun e => hr' (by subst e; exact hen r' rfl)
+    rw [enter_entered]; simp [hne]
+    exact h r' hr' t'
+  | exit r =>
+    intro r' hr' t'
+    simp only [step] at hr' ⊢
+    split
+    · rename_i he; simp only [he] at hr'; exact h r' hr' t'
+    · rename_i p rest he
+      simp only [he] at hr'
+      have hr0 : ¬ Allocated s r' := hr'
+      by_cases e : r' = r
+      · subst e
+        have := h r' hr0 t
+        rw [this] at he; cases he
+      · simp [e]; exact h r' hr0 t'
+
 end lemmas
 
 end Labrea.RuntimeSM
